@@ -288,7 +288,10 @@ fn save_v3_with_compression<P: AsRef<Path>>(
     compress: bool,
 ) -> Result<(), SnapshotFormatError> {
     let path = path.as_ref();
-    let temp_path = path.with_extension("tmp");
+    // A sibling that is never the target itself (`with_extension` maps "x.tmp" onto itself).
+    let mut temp_name = path.as_os_str().to_owned();
+    temp_name.push(".tmp");
+    let temp_path = std::path::PathBuf::from(temp_name);
 
     let router_snapshot = router.snapshot();
     // Estimate total entry count from various slabs
